@@ -1,7 +1,8 @@
-(** * DhpConsDestroy: towards "smr::destruct run from a configuration in which every thread has detached disposes
-      exactly the retired objects that were not yet disposed" (DHP half of C03).  UNFINISHED: parts 1-3 below are
-      proved; the induction over thread_list_ in destroy_recs and the final theorem are missing (statement:
-      C03_dhp_destroy_disposes_all_detached_statement in Properties_C03_Dhp.v).
+(** * DhpConsDestroy: groundwork for "smr::destruct run from a configuration in which every thread has detached disposes
+      exactly the retired objects that were not yet disposed" (DHP half of C03).  Parts 1-3 below; the induction over
+      thread_list_ in destroy_recs is in LV.Proofs.DhpConsDRecs, the final theorem
+      [dhp_destroy_disposes_all_detached] (= C03_dhp_destroy_disposes_all_detached of Properties_C03_Dhp.v) in
+      LV.Proofs.DhpConsDThm.
 
     Part 1: a big-step evaluator [dexec] for [dprog] and its agreement with [Conc.run] of the single compiled thread
             ([run_single]).
